@@ -87,6 +87,10 @@ func firstLine(s string) string {
 	return s
 }
 
+// runCrashRisk (VERIF_C08_RUN_CRASHRISK=1) executes the mutants that crashRisk normally skips; used to
+// re-observe C08-nil-component-panic after a repair, never by the driver.
+func runCrashRisk() bool { return os.Getenv("VERIF_C08_RUN_CRASHRISK") != "" }
+
 func undecidedLeadingZero(m mutation) bool {
 	return m.op == "bstr-extend" && strings.Contains(m.class, "natBytes") && strings.HasSuffix(m.class, "(front)")
 }
@@ -296,6 +300,12 @@ func runTamper(t *rapid.T, test string, in inst, what string) {
 	switch {
 	case panicMsg != "":
 		violation = "panic"
+	case m.op == "plus-order" && verdict == "reject:value-changed":
+		// the decoder kept the unreduced representative value + modulus: the same residue for a verifier that
+		// only uses it modulo that modulus (the property's exemption); both verdicts allowed, counted separately
+		vlib.Case(test, vlib.Desc(in.Proto(), cn, in.Shape(), in.Group(), "tamper:"+m.op, "unreduced-residue"), false,
+			"op="+m.op, fmt.Sprintf("verdict=unreduced-residue:accepted=%v", verr == nil))
+		return
 	case verdict == "accept:same-values" && verr != nil:
 		violation = "rejected-same-values"
 	case verdict != "accept:same-values" && verr == nil:
